@@ -60,11 +60,15 @@ CLAIMS = {
  "C07": ("Pad-wiping clause decided completely (k_ipad, k_opad, inner context wiped on every path; every local HMAC context reaches its final); no context read after final; RFC 2104 skeleton (strict block comparison, zero padding, 0x36/0x5c over whole block, inner/outer order). MAC equality is NOT decided.",
          "Trusts clang 14 CFG, typestate dataflow in rules/r_ts.py; *_final wiping its context is C04's obligation.",
          "static analysis: typestate dataflow + post-dominance + structural skeleton match"),
+ "C18": ("Structural clauses only, of what the library adds around inet_ntop/inet_pton: sa_addr_port_to_str evaluated over family x output buffer size x callee outcome x port classes (210 classes): every capacity handed to a callee lies inside the caller's buffer (no unsigned wrap), the pieces '[' address ']' ':' port are contiguous and never overlap, every store is in bounds and the reported size is the end of the text; pref_to_mask equals the arithmetic masks in network order; inet_len2mask/inet6_len2mask for every prefix length 0..32 / 0..128 write each mask word once with the arithmetic value and refuse larger lengths, and inet_mask2len/inet6_mask2len return the length on each such mask (the conversions are inverse); in every switch over the address family each arm views and sizes the address through that family's records, and the 1/4 word counts of membership/truncation match the address sizes; sin_port/sin6_port are converted on every access (R-ENDIAN); both text parsers share the same trimming/copy/parse statements; relational abstract interpretation of all 33 functions of socket_address.c and net/utils.c (accesses proved or listed undecided). NOT decided: the text inet_ntop produces and inet_pton accepts (RFC 5952 form, round trip of address values), the set of spellings accepted or rejected, membership for arbitrary addresses.",
+         "Trusts clang 14 CFG, the partial evaluator, libc contracts (inet_ntop/strlcpy write at most the size given); little-endian host for the mask table (the source has no big-endian branch).",
+         "static analysis: partial evaluation over finite argument classes (text layout, prefix lengths), constant-table comparison, switch-arm/record agreement, byte-order typestate, sibling comparison, relational abstract interpretation"),
+ "C19": ("Structural clauses only. The ring's functions touch positions only through comparisons of a few quantities, so their decisions are finite tables over the orderings of (reader round vs writer round incl. the wrap of the counter, reader block vs write block, write block + 1, last valid block): r_buf_rpos_check and r_buf_rpos_check_fast give the same verdict on all 1610 orderings; whenever r_buf_rpos_check rejects a position it stores a dropped amount and leaves the position repaired (checking the position it left behind succeeds - a lagging reader is resynchronised by the call that detects the lag and is told once); r_buf_data_avail_size and r_buf_data_get walk the same (first block, block count) ranges from the same offset and share the empty case; r_buf_wbuf_get / r_buf_wbuf_set evaluated over space-left / request / minimum-block / block-used classes: region handed out inside the ring, wrap exactly when the space left is too small, a wrap bumps the round once, records the last valid block and restarts at block 0, commit sets block length/base, write offset and last valid block; relational abstract interpretation of the file's 18 functions (proved / undecided as listed). NOT decided: stream order, byte identity and drop totals over histories of interleaved writer/reader steps; that block-table indices stay below iov_count.",
+         "Trusts clang 14 CFG and the partial evaluator; assumes a commit never exceeds what r_buf_wbuf_get handed out.",
+         "static analysis: finite-domain evaluation over all orderings of the compared quantities (partial evaluation), sibling comparison of call arguments, argument-class evaluation of the writer, relational abstract interpretation"),
 }
 
 NA = {
- "C18": "text<->address round trip and standard text forms quantify over runtime values; the only structural facts (bounded copy, prefix table) are not clauses of the statement (DESIGN.md C18)",
- "C19": "every clause quantifies over writer/reader histories; index safety needs an inductive arithmetic invariant no static rule in reach derives (DESIGN.md C19)",
 }
 
 
